@@ -155,7 +155,24 @@ def _observe(sid, ver, etm):
         if idx:
             transcript = b"".join(b for ep, t, b, m in msgs[:idx[0]])
             prf = probe_prf(ver, bytes(p.c.session.masterSecret), transcript, bytes(msgs[idx[0]][3].verify_data))
-    out["obs"] = {"ev": "OBS", "negotiated": True, "ver": ver[1], "etm": bool(ws.encryptThenMAC),
+    # TLS 1.3: the hash of the key schedule AFTER a KeyUpdate (RFC 8446 7.2: application_traffic_secret_N+1 =
+    # HKDF-Expand-Label(secret_N, "traffic upd", "", Hash.length)), recomputed with hmac/hashlib only
+    kuprf = "none"
+    if ver == (3, 4):
+        from tlslite.constants import KeyUpdateMessageType
+        s0 = bytes(p.c.session.cl_app_secret)
+        p.op("c", p.c.send_keyupdate_request(KeyUpdateMessageType.update_not_requested))
+        s1 = bytes(p.c.session.cl_app_secret)
+        for hname in ("sha256", "sha384"):
+            hl = hashlib.new(hname).digest_size
+            lab = b"tls13 traffic upd"
+            info = hl.to_bytes(2, "big") + bytes([len(lab)]) + lab + b"\x00"
+            if s1 and hmac.new(s0, info + b"\x01", hname).digest()[:hl] == s1:
+                kuprf = hname
+        p.write("c", b"after-ku")
+        o = p.read("s", None, 8)
+        data_ok = data_ok and o.ok and bytes(o.value or b"") == b"after-ku"
+    out["obs"] = {"ev": "OBS", "negotiated": True, "ver": ver[1], "etm": bool(ws.encryptThenMAC), "kuPrf": kuprf,
                   "ske": ske, "cert": cert, "certKey": ck, "factory": factory, "keyLen": klen,
                   "fixedIv": len(ws.fixedNonce) if ws.fixedNonce else 0,
                   "macLen": ws.macContext.digest_size if ws.macContext is not None else 0,
@@ -244,6 +261,74 @@ def _select(sid, ver):
                     "client": tc.out.describe() if tc.out.done else "waiting-for-more"}}
 
 
+MULTI_CLIENTS = [
+    ("default", {}),
+    ("sha384-only", dict(rsaSigHashes=["sha384"], ecdsaSigHashes=["sha384"])),
+    ("sha1-only", dict(rsaSigHashes=["sha1"], ecdsaSigHashes=["sha1"])),
+    ("sha512-pkcs1", dict(rsaSigHashes=["sha512"], ecdsaSigHashes=["sha512"], rsaSchemes=["pkcs1"])),
+    ("ecdsa-kex", dict(keyExchangeNames=["ecdhe_ecdsa"])),
+    ("rsa-kex", dict(keyExchangeNames=["ecdhe_rsa", "dhe_rsa", "rsa"])),
+    ("ecdsa-first", dict(keyExchangeNames=["ecdhe_ecdsa", "ecdhe_rsa", "rsa"])),
+    ("no-ecdsa-hash", dict(ecdsaSigHashes=[], keyExchangeNames=["ecdhe_ecdsa", "ecdhe_rsa"])),
+    ("p384-only", dict(eccCurves=["secp384r1"], keyShares=["secp384r1"])),
+]
+# "-nonca": certificates issued by a CA (issuer != subject): only for those the server looks at the client's
+# signature_algorithms(_cert) when it chooses among its key pairs
+MULTI_SERVERS = [("rsa", "ecdsa"), ("ecdsa", "rsa"), ("rsa", "ecdsa-nonca"), ("rsa-nonca", "ecdsa-nonca"), ("ecdsa-nonca", "rsa-nonca"),
+                 ("rsa", "ed25519"), ("ecdsa", "rsapss")]
+
+
+def multi(job):
+    try:
+        return _multi(*job)
+    except BaseException:
+        import traceback
+        return {"crash": traceback.format_exc(), "sid": str(job)}
+
+
+def _multi(idx, default, vhost, cname, cset, ver):
+    """server with two key pairs of different types; which suite is chosen and which certificate is presented"""
+    import os as _os
+    from ..endpoints import Pair, cred, settings, TESTS, _load_chain, _load_key
+    from ..puppet import token
+    from tlslite.handshakesettings import VirtualHost, Keypair
+    from tlslite.constants import CipherSuite
+    p = Pair("c20multi-%d" % idx)
+    nonca = {"ecdsa-nonca": ("serverECDSANonCACert.pem", "serverECDSANonCAKey.pem"),
+             "rsa-nonca": ("serverRSANonCACert.pem", "serverRSANonCAKey.pem")}
+    dch, dkey = (_load_chain(nonca[default][0]), _load_key(nonca[default][1])) if default in nonca else cred(default)
+    vch, vkey = (_load_chain(nonca[vhost][0]), _load_key(nonca[vhost][1])) if vhost in nonca else cred(vhost)
+    ss = settings(minVersion=ver, maxVersion=ver)
+    vh = VirtualHost()
+    vh.keys = [Keypair(vkey, vch.x509List)]
+    vh.hostnames = set([b"host.example"])
+    ss.virtual_hosts = [vh]
+    cs = settings(minVersion=ver, maxVersion=ver, **cset)
+    seen = []
+    orig = p.s._sendMsg
+
+    def _sendMsg(msg, *a, **kw):
+        seen.append(token(msg))
+        return orig(msg, *a, **kw)
+    p.s._sendMsg = _sendMsg
+    oq = p.s._queue_message
+
+    def _queue(msg):
+        seen.append(token(msg))
+        return oq(msg)
+    p.s._queue_message = _queue
+    st, co, so = p.handshake(ckw=dict(settings=cs, serverName="host.example"), skw=dict(certChain=dch, privateKey=dkey, settings=ss))
+    if not (co.ok and so.ok):
+        return {"skip": "%s / %s" % (co.describe(), so.describe()), "sid": idx}
+    name = CipherSuite.ietfNames[p.c.session.cipherSuite]
+    chain = p.c.session.serverCertChain
+    alg = chain.x509List[0].certAlg if chain is not None and chain.x509List else "none"
+    # RFC 8422 5.1.1 / 5.4: EdDSA certificates are used with the ECDHE_ECDSA suites
+    ck = {"rsa": "rsa", "rsa-pss": "rsa", "ecdsa": "ecdsa", "dsa": "dsa", "Ed25519": "ecdsa", "Ed448": "ecdsa"}.get(alg, alg)
+    return {"sid": idx, "name": name, "tokens": name.split("_"), "ver": list(ver),
+            "mc": {"ev": "MC", "ver": ver[1], "certKey": ck, "ske": "SKE" in seen, "server": "%s+%s" % (default, vhost), "client": cname}}
+
+
 def run(tier):
     from .. import suites
     rep = evidence.Report("C20", tier)
@@ -281,12 +366,42 @@ def run(tier):
         traces.append([{"ev": "CFG", "tokens": o["tokens"], "name": o["name"]}, o["sel"]])
         metas.append(o)
     rep.notes["peer_selected_cases"] = nsel
+    # ---- servers with several key pairs
+    mjobs = []
+    for (d_, v_) in MULTI_SERVERS:
+        for cname, cset in MULTI_CLIENTS:
+            for ver in ((3, 3), (3, 1), (3, 4)):
+                if ver < (3, 3) and ("ed25519" in (d_, v_) or "rsapss" in (d_, v_)):
+                    continue
+                mjobs.append((len(mjobs), d_, v_, cname, cset, ver))
+    with Pool(16) as pool:
+        mouts = pool.map(multi, mjobs, chunksize=4)
+    nmc = 0
+    for o in mouts:
+        if "crash" in o:
+            rep.machinery_errors.append("multi-credential case crashed %s: %s" % (o.get("sid"), o["crash"][-500:]))
+            continue
+        if "skip" in o:
+            continue
+        nmc += 1
+        traces.append([{"ev": "CFG", "tokens": o["tokens"], "name": o["name"]}, o["mc"]])
+        metas.append(o)
+    rep.notes["multi_credential_cases"] = nmc
     r, rejected = tlc.validate_traces("trace/SuitesTrace.tla", "cfg/Suites_trace.cfg", traces, rep.outdir,
                                       batch_name="suites", timeout=900)
     rep.add_tlc(r, "SuitesTrace (%d observations)" % len(traces))
     rep.traces = len(traces)
     neg = 0
     for i, (t, o) in enumerate(zip(traces, metas)):
+        if "mc" in o:
+            mc = o["mc"]
+            rep.case(("mc", mc["server"], mc["client"], tuple(o["ver"])), True)
+            if i in rejected:
+                rep.violation({"suite": o["name"], "ver": "%d.%d" % tuple(o["ver"]),
+                               "why": "server with key pairs %s chose this suite for client '%s' but presented a %s certificate (ServerKeyExchange sent: %s)" % (
+                                   mc["server"], mc["client"], mc["certKey"], mc["ske"]),
+                               "observed": "-"}, {"mc": mc, "tokens": o["tokens"]})
+            continue
         if "sel" in o:
             se = o["sel"]
             rep.case(("sel", o["sid"], tuple(o["ver"])), se["offered"])
